@@ -15,7 +15,7 @@ func init() {
 	register(&explore.Prop{
 		ID: "C06", Level: levelMC, Explorer: "E1 input-space enumerator + E2 path mode (visit histories)",
 		Rule: "STORED-S (<=3 docs x 13 stored configurations) in forms built / loaded-mem / loaded-file / merged by block copy / merged by re-encode (drops; differing field lists): every doc number plus {Count, Count+1, Count+127, Count+128, 2^32}, every early-stop index; STORED-X (130 stored values in one document, a 20 000-byte value, stored field ids >= 128, the EXTREME batches incl. a 1.2 MiB value and a 128-document block of 1.4 MiB); COPY-CROSS (two-segment block-copy merges whose merged count crosses a multiple of 128 inside a source block); REENC-CROSS (one- and two-segment re-encoding merges - deletions early in a segment, differing field lists - whose input numbering is shifted against the output numbering across a 128-document boundary); STORED-B (130 docs in two blocks; length of doc 0 and doc 128 in 0..24, six record shapes for the last record of each block): every doc of interest and every sequence of <=3 visits over {0,127,128,129} on a freshly loaded segment (the decompressed block is cached, so a visit depends on earlier ones), also after merge; " +
-			"distinct = (segment, form, visit sequence); non-trivial = visited document has >=1 stored value, sequences: touches >=2 different blocks",
+			"further families: COPY-CROSS, REENC-CROSS, COPY-BIG (block-copy merges with 1.5..17 MiB pending in an output block), the ZOO (incl. stored-prefix-widths); distinct = (segment, form, visit sequence); non-trivial = visited document has >=1 stored value, sequences: touches >=2 different blocks",
 		Assumptions: commonAssumptions, Budget: qBudget, Run: runC06,
 	})
 }
